@@ -173,6 +173,7 @@ def stepLine (s : St) (j : Json) : St × Json :=
           (match jj with | .timeout q => q.highVote s.cfg.c | .commit _ => none)),
         ("hq_view", optNatJ (match jj with | .timeout q => q.highQC.map (fun x => x.message.view.number) | .commit _ => none))])
     | none => (s, badOp)
+  | some "prune" => (s, Json.mkObj [("class", "pruned")])   -- the execution layer pruned its store: only the environment changes
   | some "tick" => applyStep s j .tick
   | some "restart" =>
     let r := Replica.start s.durable
